@@ -125,13 +125,19 @@ pub fn apply_tamper(t: &Tamper, tx: &mut Transaction, spent: &mut Vec<TxOut>) ->
     })
 }
 
+static LAST: std::sync::Mutex<Option<(String, Blinded)>> = std::sync::Mutex::new(None);
 fn eval_tamper(case: &str) -> Out {
     let (spec, seed, ts) = match (parse_spec(case), parse_seed(case), field(case, "tamper")) { (Some(s), Some(d), Some(t)) => (s, d, t), _ => return Out::ok("harnesserr parse".into()) };
     let t = match parse_tamper(ts) { Some(t) => t, None => return Out::ok("harnesserr tamper".into()) };
-    match run_blind(&spec, seed) {
+    // consecutive cases tamper with the same blinded transaction: keep the last one (same spec text and seed => same blinding)
+    let key = format!("{}|{}|{}", field(case, "in").unwrap_or(""), field(case, "out").unwrap_or(""), field(case, "seed").unwrap_or(""));
+    let cached = { let g = LAST.lock().unwrap(); g.as_ref().filter(|(k, _)| *k == key).map(|(_, b)| b.clone()) };
+    let res = match cached { Some(b) => BlindRes::Ok(b), None => run_blind(&spec, seed) };
+    match res {
         BlindRes::Panic => Out::ok("panic".into()),
         BlindRes::Err(e) => Out::ok(format!("err {}", show_blind_err(&e))),
         BlindRes::Ok(b) => {
+            *LAST.lock().unwrap() = Some((key, b.clone()));
             let rnd = rnd_of_blinds(&b.blinds).join(",");
             if field(case, "rnd").map(|r| r != rnd).unwrap_or(true) { return Out::ok("harnesserr the recorded randomness does not match this run".into()); }
             let base = verify_verdict(&b.tx, &b.spent);
